@@ -332,6 +332,16 @@ def run_assign(case):
                     S.append(("put(i, v, axis=pos)", lambda a: a.put(idx[i], rhs, axis=i, **kw), False))
                 S.append(("put(i, v, axis=negative pos)", lambda a: a.put(idx[i], rhs, axis=i - len(dims), **kw), False))
                 S.append(("put({negative pos: i}, v)", lambda a: a.put({i - len(dims): idx[i]}, rhs, **kw), False))
+            if exc is None and len(dims) >= 1 and all(dsc["k"] in ("list", "full") for dsc in descs) and all(len(l) for l in labels) and not isinstance(rhs, (np.ndarray, list, tuple)):
+                # an Axes object as index (the axes of a template array, listed in ANOTHER order than the array's dimensions): matched by name
+                da = core.env.import_dimarray()
+
+                def tmpl_():
+                    return da.Axes([da.Axis(core.label_array(dsc["v"]) if dsc["k"] == "list" and dsc["v"] else (core.label_array(labels[i_]) if dsc["k"] == "full" else core.label_array(labels[i_])[:0]), dims[i_])
+                                    for i_, dsc in list(enumerate(descs))[::-1]])
+                S.append(("a[Axes object, dimensions in reverse order]=v", lambda a: a.__setitem__(tmpl_(), rhs) if not cast else a.put(tmpl_(), rhs, cast=True), False))
+                S.append(("put(Axes object, dimensions in reverse order, v, inplace=False)", lambda a: a.put(tmpl_(), rhs, inplace=False, **kw), True))
+                cl.add("spelling:axes-object")
         else:
             S = [("ix[t]=v", lambda a: a.ix.__setitem__(idx, rhs) if not cast else a.put(idx, rhs, indexing="position", cast=True), False),
                  ("iloc[t]=v", lambda a: a.iloc.__setitem__(idx, rhs) if not cast else a.put(idx, rhs, indexing="position", cast=True), False),
